@@ -5,6 +5,8 @@ From TS Require Import Model.TopsortAlgo Model.Topsort Model.Lang.Common.
 From TS Require Import Model.Lang.TypeScript Model.Lang.Kotlin Model.Lang.Swift Model.Lang.Scala Model.Lang.Go Model.Lang.Python.
 From TS Require Import Spec.Lexers Spec.C15Spec Spec.C15Render.
 From TS Require Proofs.C15_Front Proofs.C15_Replace Proofs.C15 Proofs.C15_Render Proofs.C15_Kotlin Proofs.C15_Go Proofs.C15_Swift Proofs.C15_Python Proofs.C15_TypeScript.
+From TS Require Import Spec.C15RenderSwift.
+From TS Require Proofs.C15_SwiftItem.
 Import ListNotations.
 From TS Require Props.C15.
 
@@ -262,3 +264,70 @@ Goal forall (cfg : kt_config),
     c15_contained C15kt LCode (mark (c15_file_pieces C15kt parts)) = true.
 Proof. exact Props.C15.C15_kt_item_line_free. Qed.
 Print Assumptions Props.C15.C15_kt_item_line_free.
+Goal forall (uc : unicode) (cfg : sw_config),
+  c15_sw_raw (sw_prefix cfg) = true ->
+  c15_mappings_plain C15sw (sw_type_mappings cfg) = true ->
+  forallb (c15_plain C15sw) (sw_default_decorators cfg) = true ->
+  forallb (c15_plain C15sw) (sw_default_generic_constraints cfg) = true ->
+  forall it st text st',
+  c15_sw_item_ok it = true ->
+  sw_write_item uc cfg it st = Ok (text, st') ->
+  exists parts,
+    text = text_of (c15_file_pieces C15sw parts) /\
+    docs_of (c15_file_pieces C15sw parts) = c15_sw_item_docs uc it /\
+    c15_contained C15sw LCode (mark (c15_file_pieces C15sw parts)) = forallb safe_sw (c15_sw_item_docs uc it).
+Proof. exact Props.C15.C15_sw_item. Qed.
+Print Assumptions Props.C15.C15_sw_item.
+Goal forall (uc : unicode) (cfg : sw_config),
+  c15_sw_raw (sw_prefix cfg) = true ->
+  c15_mappings_plain C15sw (sw_type_mappings cfg) = true ->
+  forallb (c15_plain C15sw) (sw_default_decorators cfg) = true ->
+  forallb (c15_plain C15sw) (sw_default_generic_constraints cfg) = true ->
+  forall it st text st',
+  c15_sw_item_ok it = true ->
+  Forall (fun d => safe_line eol_lf_cr d = true) (c15_item_docs it) ->
+  sw_write_item uc cfg it st = Ok (text, st') ->
+  exists parts,
+    text = text_of (c15_file_pieces C15sw parts) /\
+    docs_of (c15_file_pieces C15sw parts) = c15_sw_item_docs uc it /\
+    c15_contained C15sw LCode (mark (c15_file_pieces C15sw parts)) = true.
+Proof. exact Props.C15.C15_sw_item_line_free. Qed.
+Print Assumptions Props.C15.C15_sw_item_line_free.
+Goal forall (uc : unicode) (cfg : sw_config),
+  c15_sw_raw (sw_prefix cfg) = true ->
+  c15_mappings_plain C15sw (sw_type_mappings cfg) = true ->
+  forallb (c15_plain C15sw) (sw_default_decorators cfg) = true ->
+  forallb (c15_plain C15sw) (sw_default_generic_constraints cfg) = true ->
+  forallb (c15_plain C15sw) (sw_codablevoid_constraints cfg) = true ->
+  c15_sw_version_ok (sw_version cfg) = true ->
+  forall pd text,
+  forallb c15_sw_item_ok (items_of pd) = true ->
+  sw_generate uc cfg pd = Ok text ->
+  exists items trailer parts,
+    topsort (items_of pd) = Ok items /\ Permutation items (items_of pd) /\
+    (trailer = [] \/ trailer = c15_sw_trailer_docs) /\
+    text = text_of (c15_file_pieces C15sw parts) /\
+    docs_of (c15_file_pieces C15sw parts) = flat_map (c15_sw_item_docs uc) items ++ trailer /\
+    c15_contained C15sw LCode (mark (c15_file_pieces C15sw parts)) =
+    forallb safe_sw (flat_map (c15_sw_item_docs uc) items).
+Proof. exact Props.C15.C15_sw_file. Qed.
+Print Assumptions Props.C15.C15_sw_file.
+Goal forall (uc : unicode) (cfg : sw_config),
+  c15_sw_raw (sw_prefix cfg) = true ->
+  c15_mappings_plain C15sw (sw_type_mappings cfg) = true ->
+  forallb (c15_plain C15sw) (sw_default_decorators cfg) = true ->
+  forallb (c15_plain C15sw) (sw_default_generic_constraints cfg) = true ->
+  forallb (c15_plain C15sw) (sw_codablevoid_constraints cfg) = true ->
+  c15_sw_version_ok (sw_version cfg) = true ->
+  forall pd text,
+  forallb c15_sw_item_ok (items_of pd) = true ->
+  Forall (fun it => Forall (fun d => safe_line eol_lf_cr d = true) (c15_item_docs it)) (items_of pd) ->
+  sw_generate uc cfg pd = Ok text ->
+  exists items trailer parts,
+    topsort (items_of pd) = Ok items /\ Permutation items (items_of pd) /\
+    (trailer = [] \/ trailer = c15_sw_trailer_docs) /\
+    text = text_of (c15_file_pieces C15sw parts) /\
+    docs_of (c15_file_pieces C15sw parts) = flat_map (c15_sw_item_docs uc) items ++ trailer /\
+    c15_contained C15sw LCode (mark (c15_file_pieces C15sw parts)) = true.
+Proof. exact Props.C15.C15_sw_file_line_free. Qed.
+Print Assumptions Props.C15.C15_sw_file_line_free.
